@@ -11,7 +11,6 @@ import (
 
 	"github.com/anishathalye/porcupine"
 	"github.com/orda-io/orda/client/pkg/model"
-	"go.mongodb.org/mongo-driver/bson"
 	"google.golang.org/protobuf/proto"
 	"vh/bed"
 	"vh/core"
@@ -576,16 +575,14 @@ func runC12(c *core.Case) *core.Result {
 			crdt.Apply(holder.shared.DT, w.g.Op(wrapRep(holder.shared)))
 			crdt.Apply(other.own.DT, crdt.Op{Kind: "inc", N: 1})
 			w.b.DB.SetPlan(func(cmd *fakemongo.Cmd) fakemongo.Action {
-				if cmd.Key() == "update -_-Datatypes" && len(cmd.Seqs["updates"]) > 0 {
-					if q, ok := cmd.Seqs["updates"][0].Map()["q"].(bson.D); ok {
-						if q.Map()["_id"] == sharedDoc.DUID {
-							act := fakemongo.Action{}
-							once.Do(func() {
-								act = fakemongo.Action{GateBefore: gate, OnReached: func() { reached <- struct{}{} }}
-							})
-							return act
-						}
-					}
+				// the holder's request is the only one under way: the first write of whatever form
+				// (update, find-and-modify, ...) to the datatype documents is its commit
+				if isWrite(cmd.Name) && cmd.Coll == "-_-Datatypes" {
+					act := fakemongo.Action{}
+					once.Do(func() {
+						act = fakemongo.Action{GateBefore: gate, OnReached: func() { reached <- struct{}{} }}
+					})
+					return act
 				}
 				return fakemongo.Action{}
 			})
